@@ -76,7 +76,7 @@ func genC04(t *rapid.T) ConvCase {
 func execC04(t *testing.T, c ConvCase) (v Verdict) {
 	rec := &inHeaderRecorder{hdr: map[string][]metadata.MD{}}
 	o := c.opts()
-	o.DOpts = []goat.DialOption{goat.WithStatsHandler(rec)}
+	o.DOpts = append(o.DOpts, goat.WithStatsHandler(rec))
 	outs, tap, res, sched := kit.RunConvs(t, c.Convs, o)
 	if res.Panic != nil {
 		v.failf("panic: %v\n%s", res.Panic, res.Stack)
